@@ -248,6 +248,51 @@ def _gcm_shapes(tier):
     return q
 
 
+# ---- scrypt smix: SSE2 unit vs portable unit (data-dependent V[j] look-ups are symbolic-index loads) ----------
+def smix_inputs(p):
+    return {"B": sym_bytes("B", 128 * p["r"])}
+
+
+def smix_run(it, entry, inp, p):
+    r, N = p["r"], p["N"]
+    B = it.new_buffer(128 * r, "B", False, [0] * (128 * r))
+    fill(it, B, inp["B"])
+    V = it.new_buffer(128 * r * N, "V", False, [0] * (128 * r * N))
+    XY = it.new_buffer(256 * r + 64, "XY", False, [0] * (256 * r + 64))
+    it.call(_name(it, "smix"), [B, r, N, V, XY])
+    return [_b(x) for x in it.read_buffer(B, 128 * r)]
+
+
+# ---- Argon2 fill_segment: SIMD units vs reference unit (data-independent addressing: pass 0, slice 1) ----
+def a2_inputs(p):
+    # pass 0: the first two blocks of the lane are given (H'), the rest is written before it is read;
+    # pass 1 (fill_block_with_xor path): the whole memory is arbitrary
+    return {"mem": sym_bytes("x", 1024 * (8 if p.get("pass") else 2 * p.get("slice", 1)))}
+
+
+def a2_run(it, entry, inp, p):
+    nb = 8
+    mem = it.new_buffer(1024 * nb, "memory", False, [0] * (1024 * nb))
+    fill(it, mem, inp["mem"])
+    region = it.new_buffer(24, "region", False, [0] * 24)
+    it.store_bytes(region, mem, 8, "setup")
+    it.store_bytes(Ptr_off(region, 8), mem, 8, "setup")
+    it.store_bytes(Ptr_off(region, 16), 1024 * nb, 8, "setup")
+    pr = it.new_buffer(8 * 2, "pseudo_rands", False, [0] * 16)
+    inst = it.new_buffer(56, "instance", False, [0] * 56)
+    it.store_bytes(inst, region, 8, "setup")
+    it.store_bytes(Ptr_off(inst, 8), pr, 8, "setup")
+    for off, v in ((16, 1 + p.get("pass", 0)), (20, p.get("pass", 0)), (24, nb), (28, 2), (32, nb), (36, 1), (40, 1), (44, p["type"]), (48, 0)):
+        it.store_bytes(Ptr_off(inst, off), v, 4, "setup")
+    pass_lane = p.get("pass", 0)
+    slice_index = p.get("slice", 1)
+    it.call(_name(it, entry), [inst, pass_lane, slice_index])
+    return [_b(x) for x in it.read_buffer(Ptr_off(mem, 2048 * slice_index), 2048)]
+
+
+A2 = "crypto_pwhash/argon2/"
+SCR = "crypto_pwhash/scryptsalsa208sha256/"
+
 CH = "crypto_stream/chacha20/"
 SA = "crypto_stream/salsa20/"
 B2 = "crypto_generichash/blake2b/ref/"
@@ -269,6 +314,25 @@ TARGETS = [
          a=dict(units=[SA + "ref/salsa20_ref.c", "crypto_core/salsa/ref/core_salsa_ref.c"] + U, entry="stream_ref_xor_ic", undefs=["HAVE_AMD64_ASM"]),
          b=dict(units=[SA + "xmm6int/salsa20_xmm6int-avx2.c"] + U, entry="stream_avx2_xor_ic"),
          quick=[{"len": n} for n in (1, 64, 65, 128)], thorough=[{"len": n} for n in (255, 256, 512, 513)]),
+    dict(name="scrypt-smix-sse2", inputs=smix_inputs, run=smix_run, sums=True,
+         a=dict(units=[SCR + "nosse/pwhash_scryptsalsa208sha256_nosse.c"] + U, entry="smix", cflags=["-fno-inline-functions"]),
+         b=dict(units=[SCR + "sse/pwhash_scryptsalsa208sha256_sse.c"] + U, entry="smix", cflags=["-fno-inline-functions"]),
+         quick=[], thorough=[{"r": 1, "N": 2}, {"r": 1, "N": 4}]),
+    dict(name="argon2-fill-ssse3", inputs=a2_inputs, run=a2_run, sums=True,
+         a=dict(units=[A2 + "argon2-fill-block-ref.c", A2 + "argon2-core.c"] + U, entry="argon2_fill_segment_ref"),
+         b=dict(units=[A2 + "argon2-fill-block-ssse3.c", A2 + "argon2-core.c"] + U, entry="argon2_fill_segment_ssse3"),
+         quick=[{"type": 1, "slice": 1}, {"type": 1, "pass": 1, "slice": 0}],
+         thorough=[{"type": 2, "slice": 1}, {"type": 1, "slice": 2}, {"type": 1, "slice": 3}, {"type": 1, "pass": 1, "slice": 2}]),
+    dict(name="argon2-fill-avx2", inputs=a2_inputs, run=a2_run, sums=True,
+         a=dict(units=[A2 + "argon2-fill-block-ref.c", A2 + "argon2-core.c"] + U, entry="argon2_fill_segment_ref"),
+         b=dict(units=[A2 + "argon2-fill-block-avx2.c", A2 + "argon2-core.c"] + U, entry="argon2_fill_segment_avx2"),
+         quick=[{"type": 1, "slice": 1}, {"type": 1, "pass": 1, "slice": 0}],
+         thorough=[{"type": 2, "slice": 1}, {"type": 1, "slice": 2}, {"type": 1, "slice": 3}, {"type": 1, "pass": 1, "slice": 2}]),
+    dict(name="argon2-fill-avx512f", inputs=a2_inputs, run=a2_run, sums=True,
+         a=dict(units=[A2 + "argon2-fill-block-ref.c", A2 + "argon2-core.c"] + U, entry="argon2_fill_segment_ref"),
+         b=dict(units=[A2 + "argon2-fill-block-avx512f.c", A2 + "argon2-core.c"] + U, entry="argon2_fill_segment_avx512f"),
+         quick=[{"type": 1, "slice": 1}, {"type": 1, "pass": 1, "slice": 0}],
+         thorough=[{"type": 2, "slice": 1}, {"type": 1, "slice": 2}, {"type": 1, "slice": 3}, {"type": 1, "pass": 1, "slice": 2}]),
     dict(name="blake2b-ssse3", inputs=b2_inputs, run=b2_run,
          a=dict(units=[B2 + "blake2b-compress-ref.c"] + U, entry="blake2b_compress_ref"),
          b=dict(units=[B2 + "blake2b-compress-ssse3.c"] + U, entry="blake2b_compress_ssse3"), quick=[], thorough=[{}]),
@@ -545,7 +609,8 @@ def load(side, workroot, tag):
     ll = os.path.join(wd, "linked.ll")
     if not os.path.exists(ll):
         tmp = wd + ".tmp%d" % os.getpid()
-        build.build_module(tmp, side["units"], undefs=side.get("undefs", ()))
+        build.build_module(tmp, side["units"], undefs=side.get("undefs", ()),
+                           opt=(build.OPT + side["cflags"]) if side.get("cflags") else None)
         try:
             os.rename(tmp, wd)
         except OSError:
